@@ -22,7 +22,7 @@ RULE = (
     "Sub-check 'all_topologies' enumerates every labelled rooted topology for 3..6 taxa (thorough: all 1068; quick: all of n=3..5 and every 8th of n=6)."
 )
 ASSUMPTIONS = [
-    "branch lengths log-uniform in [1e-6, 10]; agreement demanded to 1e-9 relative as the property states",
+    "agreement demanded to 1e-9 relative as the property states for branch lengths >= 1e-6 (explicit lengths are log-uniform in [1e-6, 10]); time trees can produce shorter branches, for which the tolerance is widened by the conditioning of P(t) in double precision (4e-16 / t per branch and column) and the case is labelled",
     "non-reversible models only on time trees and explicit-tensor unrooted trees (root placement is then part of the specification)",
     "LG / WAG / MG94: rate matrix taken from the model's q() (their values are C04's subject), everything else independent",
     "stop codons are not generated (not a state of the codon model; no documented meaning)",
@@ -66,9 +66,42 @@ def body(c):
     if v.size != 1 or not np.isfinite(v).all():
         return res.fail("nonfinite", {"value": v.tolist(), "reference": ref})
     v = float(v.reshape(-1)[0])
-    if abs(v - ref) > 1e-9 * max(1.0, abs(ref)):
-        return res.fail("mismatch", {"value": v, "reference": ref, "rel": abs(v - ref) / max(1.0, abs(ref))})
+    tol = 1e-9 * max(1.0, abs(ref)) + conditioning(c, dic)
+    if abs(v - ref) > tol:
+        return res.fail("mismatch", {"value": v, "reference": ref, "rel": abs(v - ref) / max(1.0, abs(ref)), "tol": tol})
     return res
+
+
+def conditioning(c, dic=None):
+    """absolute slack where an off-diagonal entry of P(t) is tiny: P_ij(t) ~ t q_ij computed by any
+    double-precision eigendecomposition carries an absolute error ~1e-16, i.e. a relative error
+    1e-16 / (t q_ij), which enters the site log-likelihood of every column that needs that change on that
+    branch.  The property's 1e-9 is promised for branch lengths >= 1e-6 with rates of order one (DESIGN C01
+    'B'); below t * min q_ij = 1e-6 the tolerance is widened accordingly (conservatively: smallest branch,
+    largest category rate, smallest positive off-diagonal rate) and the case is labelled."""
+    topo, names, dates, bl, h = phylo.tree_geometry(c)
+    pos = [x for x in bl.values() if x > 0]
+    if not pos:
+        return 0.0
+    rates, probs = phylo.site_categories(c["site"])
+    m = c["model"]
+    qmin = 1.0
+    if m["name"] not in ("LG", "WAG", "MG94"):
+        Q, pi = phylo.OL.q_model(m)
+        off = Q[~np.eye(len(pi), dtype=bool)]
+        off = off[off > 0]
+        qmin = float(off.min()) if off.size else 1.0
+    elif dic is not None:
+        sm = dic["subst"]
+        pi = sm.frequencies.detach().numpy().reshape(-1)
+        Q = phylo.OL.normalise(sm.q().detach().numpy().reshape(len(pi), len(pi)), pi)
+        off = Q[~np.eye(len(pi), dtype=bool)]
+        off = off[off > 0]
+        qmin = float(off.min()) if off.size else 1.0
+    b = min(pos) * float(max(rates)) * min(1.0, qmin)
+    if b >= 1e-6:
+        return 0.0
+    return len(c["cols"]) * 4e-16 * len(pos) / b
 
 
 def audit_body(c):
@@ -139,9 +172,68 @@ def expand_topology_case(tc):
     return box[-1]
 
 
+@st.composite
+def large_case(draw):
+    """random topologies above the brute-force sizes (pruning reference, audited elsewhere)"""
+    c = draw(phylo.like_case(families=("nucleotide", "nucleotide", "general"), nmax=30))
+    return c
+
+
+@st.composite
+def indices_case(draw):
+    """SitePattern with an `indices` selection: must equal the likelihood of the selected columns"""
+    c = draw(phylo.like_case(families=("nucleotide",), nmax=6))
+    ncol = len(c["cols"])
+    parts = []
+    for _ in range(draw(st.integers(1, 3))):
+        if draw(st.booleans()):
+            parts.append(str(draw(st.integers(0, ncol - 1))))
+        else:
+            a = draw(st.integers(0, ncol - 1))
+            b = draw(st.integers(a + 1, ncol))
+            step = draw(st.sampled_from([None, None, 2, 3]))
+            parts.append("%d:%d" % (a, b) + (":%d" % step if step else ""))
+    c["indices"] = ",".join(parts)
+    return c
+
+
+def indices_body(c):
+    import copy
+
+    from torchtree.core.utils import string_to_list_index  # documented index syntax (python slices)
+
+    nontrivial, key, labels, tags = classify(c)
+    res = Res(nontrivial=nontrivial, key=(key, c["indices"]), labels=labels + ("indices",), tags=dict(tags, indices=True))
+    spec = phylo.like_spec(c)
+    spec[-1]["site_pattern"]["indices"] = c["indices"]
+    dic = {}
+    for el in spec:
+        phylo.tt.build(el, dic)
+    v = arr(dic["like"]())
+    # reference: python slice semantics on the list of columns, in the order written
+    sel = []
+    for part in c["indices"].split(","):
+        bits = part.split(":")
+        if len(bits) == 1:
+            sel.append(c["cols"][int(bits[0])])
+        else:
+            sl = slice(*[int(x) if x != "" else None for x in bits])
+            sel.extend(c["cols"][sl])
+    d = copy.deepcopy(c)
+    d["cols"] = sel
+    if not sel:
+        return res
+    ref = phylo.reference(d, dic)
+    if v.size != 1 or not np.isfinite(v).all() or abs(float(v.reshape(-1)[0]) - ref) > 1e-9 * max(1.0, abs(ref)):
+        return res.fail("mismatch", {"value": v.tolist(), "reference": ref, "indices": c["indices"], "ncol": len(c["cols"])})
+    return res
+
+
 def subchecks(tier):
     return [
         Sub("random", body, strategy=phylo.like_case, quick=1500, thorough=30000, pretags=pretags),
         Sub("all_topologies", body, enumerate=_topology_cases, expand=expand_topology_case, exhaustive=(tier == "thorough"), pretags=pretags),
+        Sub("large", body, strategy=large_case, quick=150, thorough=3000, pretags=pretags),
+        Sub("indices", indices_body, strategy=indices_case, quick=200, thorough=3000, pretags=pretags),
         Sub("audit_oracle", audit_body, strategy=lambda: phylo.like_case(families=("nucleotide", "general"), nmax=6), quick=40, thorough=400),
     ]
